@@ -153,6 +153,9 @@ def run(cfg, V):
         more = {"pickled": [strings(pickle.loads(pickle.dumps(q))), strings(pickle.loads(pickle.dumps(Scalar.CreateWithQuantity(q, 1.5))).GetQuantity())],
                 "qpow": [(strings(q ** n), strings((s ** n).GetQuantity())) for n in (1, 2, 3)],
                 "qmul": (strings(q * q), strings((s * s).GetQuantity()), strings(q / rq) if False else strings((q * q) / q), strings(((s * s) / s).GetQuantity()))}
+        # a SIMPLE operand times / over the derived one (the derived operand is on the right; its first factor is shared, the others are not)
+        lead = Scalar(1.0, leaves[present[0]][0])
+        more["lead"] = [strings((lead * s).GetQuantity())[:2], strings((lead / s).GetQuantity())[:2], strings((Array([1.0, 1.0], leaves[present[0]][0]) * arr).GetQuantity())[:2]]
         ea, eb, sk = Array.CreateWithQuantity(q, []), Array((), "K"), Scalar(1.0, "K")
         more["empty_ops"] = [(strings((ea * eb).GetQuantity()), strings((s * sk).GetQuantity())), (strings((ea / eb).GetQuantity()), strings((s / sk).GetQuantity())),
                              (strings((eb / ea).GetQuantity()), strings((sk / s).GetQuantity())), (strings((1.0 / ea).GetQuantity()), strings((1.0 / s).GetQuantity())),
@@ -221,6 +224,12 @@ def props(cfg, T, obs):
         P.append(("a pickle round trip of the quantity (alone or inside a Scalar) renders the same strings", m_["pickled"] == [own, own]))
         P.append(("Quantity ** n, Quantity * Quantity and Quantity / Quantity render like the quantities of the same Scalar operations",
                   all(a == b for a, b in m_["qpow"]) and m_["qpow"][0][0] == own and m_["qmul"][0] == m_["qmul"][1] and m_["qmul"][2] == m_["qmul"][3]))
+        od0 = obs["order"]
+        mul_f = [(u, c, e + (1 if i == 0 else 0)) for i, (u, c, _n, e) in enumerate(od0)]
+        div_f = [(u, c, (1 if i == 0 else 0) - e) for i, (u, c, _n, e) in enumerate(od0)]
+        want_lead = [(ref_units([(u, e) for u, _c, e in f if e != 0]), ref_makestr([(c, e) for _u, c, e in f if e != 0])) for f in (mul_f, div_f, mul_f)]
+        P.append(("a simple operand times / over the derived operand: every factor keeps its own exponent (first factor shared, the others not)",
+                  [tuple(x) for x in m_["lead"]] == [tuple(x) for x in want_lead]))
         P.append(("products, quotients and reciprocals of EMPTY Arrays render the strings of the same Scalar operations", all(a == b for a, b in m_["empty_ops"])))
         P.append(("GetUnitName() of the value objects is the quantity's unit name", obs["obj_names"] == (obs["name"], obs["name"])))
         P.append(("a copy made with an EMPTY specification is the quantity without factors (all strings empty)", obs["empty"] == [("", "", "", "")] * 2))
